@@ -242,6 +242,12 @@ def run(chk):
             cases.append(("inspect_pbkdf2/256", H.pbkdf2_sha256.using(rounds=rounds, salt_size=size).hash(PW) if rounds == 1 else
                           H.pbkdf2_sha256.using(rounds=2, salt_size=size).hash(PW), lambda s: inspect_pbkdf2_hash(s, PBKDF2SHA256CryptInfo)))
             cases.append(("inspect_pbkdf2/512", H.pbkdf2_sha512.using(rounds=2, salt_size=size).hash(PW), lambda s: inspect_pbkdf2_hash(s, PBKDF2SHA512CryptInfo)))
+    # both spellings of the default cost are valid and must be kept as written
+    for size in (1, 16):
+        for hh, cls, lab in ((H.sha256_crypt, SHA256CryptInfo, "256"), (H.sha512_crypt, SHA512CryptInfo, "512")):
+            s0 = hh.using(rounds=5000, salt_size=size).hash(PW)
+            i0 = 3
+            cases.append((f"inspect_sha_crypt/{lab}/explicit-default", s0[:i0] + "rounds=5000$" + s0[i0:], lambda s, cls=cls: inspect_sha_crypt(s, cls)))
     for ident in ("2a", "2b", "2y"):
         for rounds in (4, 5):
             cases.append(("inspect_bcrypt", H.bcrypt.using(rounds=rounds, ident=ident).hash(PW), inspect_bcrypt_hash))
@@ -257,9 +263,62 @@ def run(chk):
             back = f"{type(ex).__name__}: {ex}"
         if back != s:
             chk.violation(f"libpass:{label}:roundtrip", f"libpass {label}: as_str() of the inspected hash gives {back!r} instead of the original", {"hash": s, "back": back})
+    extra_variants(chk, rnd)
     chk.extra["values_concretised"] = done
     chk.assumptions += ["grammar facts (idents, cost range, elided default) are extracted from the hasher; which families normalise hex case / repair padding bits comes from the documentation",
                         "config-only (digest-less) strings are not concretised"]
+
+
+def extra_variants(chk, rnd):
+    """format-specific settings outside HashFormat.tla's common value space: every combination is generated / constructed, parsed and rendered"""
+    import passlib.hash as H
+    # sun_md5_crypt: bare-salt flag x explicit rounds
+    for bare in (False, True):
+        for rounds in (0, 1, 77):
+            for size in (1, 8):
+                chk.count(("sun_md5_crypt", bare, rounds, size))
+                chk.action("roundtrip")
+                try:
+                    salt = "abcdefgh"[:size]
+                    cfg = ("$md5$" if rounds == 0 else f"$md5,rounds={rounds}$") + salt + ("" if bare else "$")
+                    o = H.sun_md5_crypt.from_string(cfg)
+                    o.checksum = o._calc_checksum(PW)
+                    s = o.to_string()
+                    if not s.startswith(cfg):
+                        raise ValueError(f"configuration {cfg} is rendered as {s}")
+                    o = H.sun_md5_crypt.from_string(s)
+                    back = o.to_string()
+                    facts = (o.bare_salt, o.rounds, len(o.salt))
+                    ok = H.sun_md5_crypt.verify(PW, s) and H.sun_md5_crypt.verify(PW, s.encode()) and not H.sun_md5_crypt.verify("X" + PW, s)
+                except Exception as ex:
+                    chk.violation(f"sun_md5_crypt:variant:{type(ex).__name__}", f"sun_md5_crypt(bare_salt={bare}, rounds={rounds}) raised {type(ex).__name__}: {ex}", {"bare_salt": bare, "rounds": rounds})
+                    continue
+                if back != s or facts != (bare, rounds, size) or not ok:
+                    chk.violation("sun_md5_crypt:variant:roundtrip", f"sun_md5_crypt(bare_salt={bare}, rounds={rounds}, salt_size={size}) made {s}; re-rendered {back}; parsed (bare, rounds, salt size) = {facts}; verifies: {ok}",
+                                  {"hash": s, "rendered": back, "parsed": list(facts)})
+    # scrypt: both idents over the whole range of the r and p fields (30-bit integers in the $7$ spelling); constructed, not hashed
+    vals = [1, 2, 63, 64, 65, 4095, 4096, 2 ** 12 + 1, 2 ** 18 - 1, 2 ** 18, 2 ** 18 + 5, 2 ** 24 - 1, 2 ** 24, 2 ** 29 + 12345]
+    for ident in ("$7$", "$scrypt$"):
+        for r in vals:
+            for p_ in (1, rnd.choice(vals)):
+                if r * p_ >= 2 ** 30:
+                    continue
+                for ln in (1, 16, 31):
+                    chk.count(("scrypt-fields", ident, r, p_ > 1, ln))
+                    chk.action("roundtrip")
+                    try:
+                        o = H.scrypt(ident=ident, rounds=ln, block_size=r, parallelism=p_, salt=b"0123456789abcdef", checksum=bytes(range(32)))
+                        s = o.to_string()
+                        q = H.scrypt.from_string(s)
+                        facts = (q.rounds, q.block_size, q.parallelism, q.salt, q.checksum)
+                        back = q.to_string()
+                        ph = H.scrypt.parsehash(s)
+                    except Exception as ex:
+                        chk.violation(f"scrypt:fields:{ident}:{type(ex).__name__}", f"scrypt {ident} with ln={ln}, r={r}, p={p_}: {type(ex).__name__}: {ex}", {"ident": ident, "r": r, "p": p_, "ln": ln})
+                        continue
+                    if facts != (ln, r, p_, b"0123456789abcdef", bytes(range(32))) or back != s or ph.get("block_size", 8) != r or ph.get("parallelism", 1) != p_:
+                        chk.violation(f"scrypt:fields:{ident}:roundtrip", f"scrypt {ident} string for ln={ln}, r={r}, p={p_} parses back as ln={q.rounds}, r={q.block_size}, p={q.parallelism}; re-rendered equal: {back == s}",
+                                      {"hash": s, "ident": ident, "r": r, "p": p_, "ln": ln})
 
 
 def replay(chk, path):
